@@ -1276,6 +1276,20 @@ func (srv *server) initPluginHooks() error {
 		}
 		srv.hooks.OnEnhancedAuth = onEnhancedAuth
 	}
+	if onReAuthWrappers != nil {
+		onReAuth := srv.hooks.OnReAuth
+		if onReAuth == nil {
+			onReAuth = func(ctx context.Context, client Client, auth *packets.Auth) (*AuthResponse, error) {
+				return &AuthResponse{
+					Continue: false,
+				}, nil
+			}
+		}
+		for i := len(onReAuthWrappers); i > 0; i-- {
+			onReAuth = onReAuthWrappers[i-1](onReAuth)
+		}
+		srv.hooks.OnReAuth = onReAuth
+	}
 
 	if onConnectedWrappers != nil {
 		onConnected := srv.hooks.OnConnected
